@@ -1394,7 +1394,7 @@ class FileSet:
             FileInfo objects.
         """
         # We always want to have sorted files if we want to bundle them.
-        if sort or isinstance(bundle_size, int):
+        if sort or bundle_size is not None:
             # Sort the files by starting and ending time:
             file_iterator = sorted(
                 file_iterator, key=lambda x: (x.times[0], x.times[1])
@@ -1415,6 +1415,10 @@ class FileSet:
             )
         elif isinstance(bundle_size, str):
             files = list(file_iterator)
+            if not files:
+                # Nothing to bundle (pandas cannot group an empty series
+                # without a DatetimeIndex by time)
+                return
 
             # We want to split the files into hourly (or daily, etc.) bundles.
             # pandas provides a practical grouping function.
